@@ -200,6 +200,30 @@ def run(chk):
             lines.append({"ev": "Manifest", "v": {"t": "str", "s": chunk}, "k": "val", "text": cps(r["out"])})
             lmeta.append(("unicode", None, pname, f"U+{chunk[0]:04X}..", r))
 
+    # 3e. long strings (inside an array and an object, so that every path sees them as nested values) through every path;
+    #     the independent reader here is python's json (the model's Reader is exercised on the short cases above)
+    import json as _json
+    lcmds, lmeta2 = [], []
+    for n in (255, 256, 257, 300, 1000, 5000):
+        for unit in ("a", "\u00e9", "x\\\"y"):
+            E = f"{{k: [std.join('', std.repeat([{jstr(unit)}], {n}))]}}"
+            for pname, src, fmt, wrapped in paths_for(E):
+                lcmds.append({"cmd": "eval", "id": len(lcmds), "src": src, "manifest": fmt})
+                lmeta2.append((n, unit, pname, wrapped, src))
+    for r, (n, unit, pname, wrapped, src) in zip(run_cmds(lcmds, timeout_per_case=30), lmeta2):
+        chk.count(("long", n, unit, pname))
+        want = {"k": [unit * n]}
+        ok = False
+        if r["k"] == "val":
+            try:
+                got = _json.loads(r["out"])
+                ok = got == ([want] if wrapped else want)
+            except ValueError:
+                ok = False
+        if not ok:
+            chk.disagree(f"c05:long:{pname}:{n}x{unit!r}", {"src": src[:200]}, f"JSON text of a {n * len(unit)}-character string", {"k": r["k"], "out": (r.get("out") or r.get("msg") or "")[:200]},
+                         "a long string is not manifested as JSON text that reads back as the same string")
+
     # 4. impl -> spec: trace validation
     rejected = common.validate_lines(chk, "Trace_JsonText", "Trace_JsonText.cfg", lines, "c05")
     for li in rejected:
